@@ -177,8 +177,10 @@ def col_byname(ctx, modules=None):
                             isinstance(node.slice.elts[1], ast.Slice) and
                             node.slice.elts[1].lower is None and node.slice.elts[1].upper is None):
                     bad = norm_text(node)
-                if isinstance(node, ast.Call) and norm_text(node.func) in (
-                        'np.asarray', 'np.array', 'np.hsplit', 'np.split', 'np.ascontiguousarray') \
+                if isinstance(node, ast.Call) and \
+                        (f.module.resolve(node.func, f.local_names()) or '') in (
+                        'numpy.asarray', 'numpy.array', 'numpy.hsplit', 'numpy.split',
+                        'numpy.ascontiguousarray', 'numpy.asanyarray', 'numpy.asfarray') \
                         and node.args and isinstance(node.args[0], ast.Name) and \
                         node.args[0].id == p:
                     bad = norm_text(node)
